@@ -2,6 +2,7 @@
   S3 — what `PInvB` says in plain terms, and that the initial states satisfy it.
 -/
 import CimbaModel.Sim.S3PInvDispatch
+import CimbaModel.Sim.S3TInvRun
 
 namespace CimbaModel.Sim.S3
 open CimbaModel CimbaModel.Sim CimbaModel.Event CimbaModel.Generated CimbaModel.KPQ
@@ -15,6 +16,7 @@ structure InitOk (w : World) : Prop where
   wt : ∀ p, (w.proc p).waiters = []
   ew : w.evWaiters = []
   nw : ∀ e ∈ w.ev.pending, e.item.a ≠ aProc ∧ e.item.a ≠ aEvent
+  nt : ∀ e ∈ w.ev.pending, e.item.a ≠ aTime
 
 theorem InitOk.pinv {w : World} (h : InitOk w) : PInvB w where
   ei := h.ei
@@ -36,6 +38,14 @@ theorem InitOk.pinv {w : World} (h : InitOk w) : PInvB w where
   oh := fun e he ha => absurd ha (h.nw e he).2
   up := fun a ha _ _ haa => absurd haa (h.nw a ha).1
   ue := fun a ha _ _ haa => absurd haa (h.nw a ha).2
+
+theorem InitOk.tinv {w : World} (h : InitOk w) : TInvB w where
+  ei := h.ei
+  t1 := fun p k _ hk => by rw [h.aw] at hk; cases hk
+  t2 := fun e he ha => absurd ha (h.nt e he)
+  tle := fun p k hk => by rw [h.aw] at hk; cases hk
+  tnd := fun p => by unfold timeAw; rw [h.aw]; exact List.nodup_nil
+  tb := fun e he ha => absurd ha (h.nt e he)
 
 /-- I_waiters: whoever is registered as a waiter of `p` awaits `p` and is suspended in `wait_process p`; nobody is
     registered twice -/
